@@ -127,7 +127,30 @@ def plan_C11(ck):
               sample_events=("PoolNew", "cb"), nproc=8)
 
 
-PLANS = {"C11": plan_C11, "C09": plan_C09, "C16": plan_C16, "C01": plan_C01, "C02": plan_C02, "C03": plan_C03, "C04": plan_C04, "C05": plan_C05, "C06": plan_C06,
+TSAN_FLOW_BUILD = dict(sources=["main.cpp", "pool_driver.cpp", "stubs.cpp", "stubs_flow.cpp", "flow_mesh.cpp", "flow_queen_nc.cpp"],
+                       name="fsl_harness_flow_tsan")
+
+
+def plan_C10(ck):
+    q = ck.tier == "quick"
+    note = "block dispatch of the parallel router (fill/read/write of the neighbour scratch per node) and level loop of apply_kernel_par, every interleaving: result = sequential result, kernel exactly once per node after all its receivers, termination"
+    ck.model("ParDispatch-2workers-6nodes", "MCParDispatch.tla", "MCParDispatch_ok2.cfg", note=note, workers=8)
+    ck.model("ParDispatch-3workers-7nodes-minlevel", "MCParDispatch.tla", "MCParDispatch_ok3.cfg", note=note, workers=8)
+    ck.model("ParDispatch-shared-scratch", "MCParDispatch.tla", "MCParDispatch_shared.cfg", expect="violation", workers=8,
+             note="negative control: one scratch cell shared by the workers (cache-less grid defect) gives wrong receivers in some interleaving")
+    ck.model("ParDispatch-no-barrier", "MCParDispatch.tla", "MCParDispatch_nobarrier.cfg", expect="violation", workers=8,
+             note="negative control: without the wait between levels a kernel call can precede one of its receivers")
+    ck.traces(cf.parallel_cases(ck.seed + 10, 120 if q else 2500, 4 if q else 6, "C10"), ["C10"], tag="c10",
+              nontrivial=cf.nontrivial_world, timeout_ms=30000)
+    ck.traces(cf.parallel_cases(ck.seed + 110, 30 if q else 400, 5, "C10big", big=True), ["C10"], tag="c10big",
+              nontrivial=cf.nontrivial_world, timeout_ms=60000)
+    # happens-before observer on the grids whose neighbour look-up goes through a scratch buffer
+    ck.traces(cf.parallel_cases(ck.seed + 210, 24 if q else 300, 4, "C10tsan", kinds=["raster_nc", "mesh"]), ["C10"],
+              tag="c10tsan", flavor="tsan", build=TSAN_FLOW_BUILD, env=TSAN_ENV, timeout_ms=120000, nproc=8,
+              nontrivial=cf.nontrivial_world)
+
+
+PLANS = {"C10": plan_C10, "C11": plan_C11, "C09": plan_C09, "C16": plan_C16, "C01": plan_C01, "C02": plan_C02, "C03": plan_C03, "C04": plan_C04, "C05": plan_C05, "C06": plan_C06,
          "C19": plan_C19}
 
 
